@@ -44,14 +44,17 @@ def make_inject_lemma(n, run_last, replace):
 
     def lem(k: int, fam: int, x0: int, x1: int, x2: int) -> bool:
         """
-        pre: 0 <= k <= 3 and 0 <= fam < 4
+        pre: 0 <= k <= 3 and 0 <= fam < 64
         pre: 0 <= x0 < 256 and 0 <= x1 < 256 and 0 <= x2 < 256
         post: _
         """
-        if k > n:
+        if k > n or fam >= 4 ** n:
             return True
-        k, fam = pin(k, 0, n), pin(fam, 0, 3)
-        parts = [_family((fam + i) % 4, x) for i, x in enumerate([x0, x1, x2][:n])]
+        k, fam = pin(k, 0, n), pin(fam, 0, 4 ** n - 1)
+        if QUICK[0] and n == 3 and fam not in (0, 21, 42, 63, 27, 6, 57, 5, 20, 17, 23, 61):
+            return True      # quick: 12 of the 64 family triples (all-equal, all-different, equal neighbours); thorough: all
+        # an independent family per pickle (base-4 digits of fam): neighbours may be of the same family and size
+        parts = [_family((fam // (4 ** i)) % 4, x) for i, x in enumerate([x0, x1, x2][:n])]
         data = b"".join(parts)
         argv = ["fickling", "--inject", CODE, "--inject-target", str(k)] + flags
         with patched_io():
@@ -116,14 +119,16 @@ def inject_from_file(n: int, k: int, fl: int, x: int) -> bool:
 def make_decompile_lemma(n, trace):
     def lem(fam: int, x0: int, x1: int, x2: int) -> bool:
         """
-        pre: 0 <= fam < 4
-        pre: 0 <= x0 < 4 and 0 <= x1 < 4 and 0 <= x2 < 4
+        pre: 0 <= fam < 64
+        pre: 0 <= x0 < 2 and 0 <= x1 < 2 and 0 <= x2 < 2
         post: _
         """
-        fam = pin(fam, 0, 3)
-        xs = [pin(x0, 0, 3), pin(x1, 0, 3), pin(x2, 0, 3)][:n]
+        if fam >= 4 ** n:
+            return True
+        fam = pin(fam, 0, 4 ** n - 1)
+        xs = [pin(x0, 0, 1), pin(x1, 0, 1), pin(x2, 0, 1)][:n]
         with native():
-            parts = [_family((fam + i) % 4 if i != 1 else 3, x) for i, x in enumerate(xs)]
+            parts = [_family((fam // (4 ** i)) % 4, x) for i, x in enumerate(xs)]
             rc, out, txt, _, _ = run_cli(["fickling"] + (["--trace"] if trace else []), b"".join(parts))
             rt.reach()
             if rc != 0:
@@ -158,21 +163,26 @@ def make_decompile_lemma(n, trace):
     return lem
 
 
+QUICK = [True]
+
+
 def lemmas(tier):
     q = tier == "quick"
+    QUICK[0] = q
     L = []
     combos = [(n, a, b) for n in (1, 2, 3) for a in (False, True) for b in (False, True)]
     for n, a, b in combos:
         fn = make_inject_lemma(n, a, b)
         L.append(Lemma(fn.__name__, fn, timeout=200 if q else 900,
-                       dry=[{"k": 0, "fam": 0, "x0": 1, "x1": 2, "x2": 3}, {"k": n, "fam": 1, "x0": 1, "x1": 2, "x2": 3}],
-                       doc={"S": ["x0..x%d: payload byte of every stacked pickle" % (n - 1)], "F": ["target k in 0..%d (incl. one past the end)" % n, "family rotation (4)", "n=%d run_last=%s replace=%s" % (n, a, b)],
+                       dry=[{"k": 0, "fam": 0, "x0": 1, "x1": 2, "x2": 3}, {"k": n, "fam": 1, "x0": 1, "x1": 2, "x2": 3},
+                            {"k": 0, "fam": [1, 5, 21][n - 1], "x0": 1, "x1": 2, "x2": 3}, {"k": n - 1, "fam": [3, 15, 63][n - 1], "x0": 7, "x1": 7, "x2": 7}],
+                       doc={"S": ["x0..x%d: payload byte of every stacked pickle" % (n - 1)], "F": ["target k in 0..%d (incl. one past the end)" % n, "family of each pickle independently (4^n)", "n=%d run_last=%s replace=%s" % (n, a, b)],
                             "bound": "n<=3 pickles from 4 families"}))
     L.append(Lemma("inject_from_file", inject_from_file, timeout=200, dry=[{"n": 3, "k": 1, "fl": 0, "x": 0}],
                    doc={"F": ["n, k, flags, contents pinned; input read from a real temp file; input file unchanged"], "bound": "pinned contents"}))
     for n, tr in [(n, t) for n in (1, 2, 3) for t in (False, True)]:
         fn = make_decompile_lemma(n, tr)
-        L.append(Lemma(fn.__name__, fn, timeout=200 if q else 900, dry=[{"fam": 3, "x0": 1, "x1": 2, "x2": 3}],
-                       doc={"F": ["family rotation, payload values 0..3 (pinned; unparse renders ints digit by digit)", "n=%d trace=%s" % (n, tr)],
-                            "bound": "n<=3; the second pickle always makes a call so that a _var is live across pickles"}))
+        L.append(Lemma(fn.__name__, fn, timeout=200 if q else 900, dry=[{"fam": 63, "x0": 1, "x1": 0, "x2": 1}, {"fam": 27, "x0": 0, "x1": 0, "x2": 0}],
+                       doc={"F": ["family of each pickle independently (4^n, incl. stacks where every pickle binds variables)", "payload values 0..1 (pinned; unparse renders ints digit by digit)", "n=%d trace=%s" % (n, tr)],
+                            "bound": "n<=3"}))
     return L
